@@ -301,8 +301,11 @@ func zzURRShape() (mask, trigLen, thrF, quoF int) {
 	if zzTier() == 1 {
 		mask = nondetChoice("subset", 64)
 		trigLen = 2 + nondetChoice("triglen", 2)
-		thrF = nondetChoice("thrflags", 8)
-		quoF = nondetChoice("quoflags", 8)
+		// non-empty flag subsets only: a Volume Threshold / Volume Quota IE with no volume flag is a
+		// one-octet payload that go-pfcp itself rejects as malformed (TS 29.244 8.2.13 / 8.2.50:
+		// at least one bit shall be set); it is outside "well-formed" (see DESIGN.md 0.3)
+		thrF = 1 + nondetChoice("thrflags", 7)
+		quoF = 1 + nondetChoice("quoflags", 7)
 		return
 	}
 	switch nondetChoice("profile", 3) {
